@@ -926,6 +926,67 @@ def run_deep_group(ctx):
             return
 
 
+def run_composition_extras(ctx):
+    """the composition itself, on the implementation's own pcDelta: (1) with a metric whose insertions and deletions cost differently the entry
+    of the pair (g, h) is pcDelta(group g, group h) in THAT order, whatever the sizes of the groups (seeded change C13-r8m1: the larger group
+    put first); (2) the coincidence form bins=0 may be spelled by any zero (Python / NumPy integer or float, 0-d array), as pcDelta itself
+    accepts (seeded change C13-r8m2)."""
+    import pyrepseq.distance as di
+    from pyrepseq.metric import WeightedLevenshtein
+    rng = ctx.rng
+    for t in range(4 if ctx.quick else 40):
+        sizes = dict(zip('abc', rng.sample([2, 3, 5, 6], 3)))
+        rows = [(g, ''.join(rng.choice('AC') for _ in range(rng.randint(0, 6)))) for g, n in sizes.items() for _ in range(n)]
+        rng.shuffle(rows)
+        df = pd.DataFrame(dict(g=[r[0] for r in rows], s=[r[1] for r in rows]))
+        w = rng.choice([(1, 3, 2), (3, 1, 2), (1, 2, 5)])
+        edges = np.arange(0, 40)
+        groups = {g: [x for k, x in rows if k == g] for g in sizes}
+        names = sorted(groups)
+        r = call_impl(lambda: di.pcDelta_grouped_cross(df, 'g', 's', condensed=True, bins=edges, metric=WeightedLevenshtein(*w)))
+        ctx.count('composition: asymmetric metric through **kwargs')
+        ctx.case(nontrivial_key=('comp-asym', tuple(rows), w))
+        site = 'distance.pcDelta_grouped_cross[asymmetric metric]'
+        why = None
+        if r[0] != 'ok':
+            why = 'outcome %s' % (r,)
+        else:
+            for i, g in enumerate(names):
+                for h in names[i + 1:]:
+                    exp = call_impl(lambda: di.pcDelta(groups[g], groups[h], metric=WeightedLevenshtein(*w), bins=edges))
+                    try:
+                        got = np.asarray(r[1].loc[(g, h)], dtype=float).ravel()
+                    except Exception as e:
+                        why = 'no row for the pair %s: %s' % ((g, h), e)
+                        break
+                    if exp[0] != 'ok' or got.shape != np.asarray(exp[1]).shape or not np.allclose(got, np.asarray(exp[1], dtype=float), rtol=0, atol=1e-12, equal_nan=True):
+                        why = 'row (%s, %s) = %s, but pcDelta(group %s, group %s) with the same metric = %s' % (
+                            g, h, [round(float(x), 6) for x in got[:16]], g, h, exp[1][:16] if exp[0] == 'ok' else exp)
+                        break
+                if why:
+                    break
+        if why:
+            ctx.violation('property', 'pcDelta_grouped_cross(table %s, by=g, condensed=True, bins=0..39, metric=WeightedLevenshtein%s): %s' % (rows, w, why),
+                          dict(case=dict(table=rows, weights=list(w)), site=site), site=site)
+            return
+    # zeros of other types
+    rows = [('a', 'AC'), ('a', 'AC'), ('a', 'A'), ('b', 'AC'), ('b', 'C'), ('b', 'C'), ('c', 'AC')]
+    df = pd.DataFrame(dict(g=[r[0] for r in rows], s=[r[1] for r in rows]))
+    base_g = call_impl(lambda: di.pcDelta_grouped(df, 'g', 's', bins=0))
+    base_c = call_impl(lambda: di.pcDelta_grouped_cross(df, 'g', 's', bins=0))
+    for name, z in (('np.int64(0)', np.int64(0)), ('0.0', 0.0), ('np.float64(0)', np.float64(0)), ('np.array(0)', np.array(0)), ('np.arange(3)[0]', np.arange(3)[0])):
+        for fn, base, what in ((di.pcDelta_grouped, base_g, 'pcDelta_grouped'), (di.pcDelta_grouped_cross, base_c, 'pcDelta_grouped_cross[square]')):
+            r = call_impl(lambda: fn(df, 'g', 's', bins=z))
+            ctx.count('composition: bins = a zero of another type')
+            ctx.case(nontrivial_key=('comp-zero', name, what))
+            same = r[0] == 'ok' and base[0] == 'ok' and np.allclose(np.asarray(r[1], dtype=float), np.asarray(base[1], dtype=float), atol=1e-12, rtol=0, equal_nan=True)
+            if not same:
+                site = 'distance.%s[bins=zero of another type]' % what.split('[')[0]
+                ctx.violation('property', '%s(table %s, by=g, bins=%s) = %s, but with bins=0 (the same coincidence form for pcDelta) it is %s' %
+                              (what, rows, name, str(r)[:300], str(base)[:300]), dict(case=dict(table=rows, zero=name), site=site), site=site)
+                return
+
+
 def run(ctx):
     rng = ctx.rng
     ctx.rule = ('(a) every table with <= %d rows over group keys {b, a, c} and sequences {A, B}: pc_conditional, pc_grouped_cross, pcDelta_grouped(bins=0), '
@@ -950,6 +1011,7 @@ def run(ctx):
     run_one_feature_list(ctx)
     run_numeric_feature_with_missing(ctx)
     run_deep_group(ctx)
+    run_composition_extras(ctx)
     cases = [gen_case(rng, ctx.quick) for _ in range(250 if ctx.quick else 4000)]
     # every rarely used form at least a few times whatever the seed
     for x in EXTRAS:
